@@ -45,6 +45,7 @@ class FISTA(BaseSolver):
         all_features = np.arange(n_features)
         X_is_sparse = issparse(X)
         t_new = 1.
+        stop_crit = np.inf  # initialize for case max_iter=0
 
         w = w_init.copy() if w_init is not None else np.zeros(n_features)
         z = w_init.copy() if w_init is not None else np.zeros(n_features)
